@@ -31,6 +31,7 @@ type Adv struct {
 	Addr       string
 	Names      map[string]string // cid -> readable name
 	WriteList  []string
+	PubAddr    string // wildcard database opened first when options are reused
 	counter    int
 }
 
@@ -41,6 +42,9 @@ type AdvOptions struct {
 	Controller       string   // "ipfs" (default), "simple", "orbitdb"
 	VictimReplicates bool
 	SimpleDirect     bool // replicas built by the store constructor with an explicit simple access controller
+	// ReusedOptions: the victim (and the non-writer's local replica) open a wildcard database of A first and
+	// then the attacked database with the SAME options value, as an application holding one options struct does
+	ReusedOptions bool
 }
 
 func NewAdv(o AdvOptions) (*Adv, error) {
@@ -99,7 +103,20 @@ func NewAdv(o AdvOptions) (*Adv, error) {
 	if w.SB, err = w.B.DB.Open(bg, w.Addr, &orbitdb.CreateDBOptions{Replicate: boolp(false)}); err != nil {
 		return nil, fmt.Errorf("open B: %w", err)
 	}
-	if w.SV, err = w.V.DB.Open(bg, w.Addr, &orbitdb.CreateDBOptions{Replicate: boolp(true)}); err != nil {
+	vopts := &orbitdb.CreateDBOptions{Replicate: boolp(true)}
+	if o.ReusedOptions {
+		pac := accesscontroller.NewEmptyManifestParams()
+		pac.SetAccess("write", []string{"*"})
+		pub, err := w.A.DB.Create(bg, "pub", o.Kind, &orbitdb.CreateDBOptions{Replicate: boolp(false), AccessController: pac})
+		if err != nil {
+			return nil, fmt.Errorf("create pub: %w", err)
+		}
+		w.PubAddr = pub.Address().String()
+		if _, err := w.V.DB.Open(bg, w.PubAddr, vopts); err != nil {
+			return nil, fmt.Errorf("open pub on V: %w", err)
+		}
+	}
+	if w.SV, err = w.V.DB.Open(bg, w.Addr, vopts); err != nil {
 		return nil, fmt.Errorf("open V: %w", err)
 	}
 	if o.SimpleDirect {
